@@ -73,6 +73,12 @@ class Translator:
         ss = '; '.join(f'({self.it.h(x[0])}, mkState {x[3]} {x[2]} {self.it.p(x[4])})' for x in snap['states'])
         cs = '; '.join(f'({self.it.h(x[0])}, mkCState {self.it.h(x[1])} {x[3]} {x[2]} {ASSOC.get(x[4], 9)} {oz(x[5])} {oz(x[6])} {self.it.p(x[7])})'
                        for x in snap['cstates'])
+        sv = snap.get('saved') or {}
+        if any(sv.get(k) for k in ('d', 's', 'c')):
+            # the history starts after transactions that removed something (commits during the consumer's first load)
+            tabs = ' '.join('([' + '; '.join(f'({self.it.h(e[0])}, {e[1]})' for e in sv.get(k, [])) + '] : list (H * Z))'
+                            for k in ('d', 's', 'c'))
+            return f'Definition {name} : mdib := mk_mdib_sv [{ds}] [{ss}] [{cs}] {snap["ver"]} {tabs}.'
         return f'Definition {name} : mdib := mk_mdib [{ds}] [{ss}] [{cs}] {snap["ver"]}.'
 
     # ------------------------------------------------------------------ one case
@@ -81,6 +87,7 @@ class Translator:
         snap = result['init']['prov']
         import hashlib, json
         core = {k: snap[k] for k in ('descrs', 'states', 'cstates', 'ver')}
+        core['saved'] = snap.get('saved')
         name = 'init_' + hashlib.sha1(json.dumps(core, sort_keys=True).encode()).hexdigest()[:10]
         if name not in self.init_defs:
             self.init_defs[name] = self.init_literal(name, snap)
@@ -206,7 +213,7 @@ class ConsumerTranslator(Translator):
         ss = '; '.join(f'({self.it.h(x[0])}, mkState {x[3]} {x[2]} {self.it.p(x[4])})' for x in snap['states'])
         cs = '; '.join(f'({self.it.h(x[0])}, mkCState {self.it.h(x[1])} {x[3]} {x[2]} {ASSOC.get(x[4], 9)} {oz(x[5])} {oz(x[6])} {self.it.p(x[7])})'
                        for x in snap['cstates'])
-        return f'Definition {name} : cmdib := mk_cmdib [{ds}] [{ss}] [{cs}] {snap["ver"]} {seq_id} {inst if inst is not None else 0}.'
+        return f'Definition {name} : cmdib := mk_cmdib [{ds}] [{ss}] [{cs}] {snap["ver"]} {seq_id} ({inst if inst is not None else -1}).'
 
     def st(self, x):
         return f'({self.it.h(x[0])}, mkState {x[3]} {x[2]} {self.it.p(x[4])})'
@@ -217,7 +224,7 @@ class ConsumerTranslator(Translator):
 
     def report(self, r, seqs):
         seq = seqs.setdefault(r['seq'], len(seqs) + 1)
-        vg = f'(mkVg {r["ver"]} {seq} {r["inst"] if r["inst"] is not None else 0})'
+        vg = f'(mkVg {r["ver"]} {seq} ({r["inst"] if r["inst"] is not None else -1}))'
         if r['kind'] == 'DescriptionModificationReport':
             parts = []
             for p in r['parts']:
@@ -239,6 +246,10 @@ class ConsumerTranslator(Translator):
         snap = result['init']['prov']
         seqs = {snap['seq']: 1}
         core = {k: snap[k] for k in ('descrs', 'states', 'cstates', 'ver')}
+        # the consumer model starts with the version group the real consumer holds after its first load
+        cvg = result['init'].get('cons_vg') or [snap['ver'], snap['seq'], snap['inst']]
+        cseq = seqs.setdefault(cvg[1], len(seqs) + 1)
+        core['cvg'] = [cseq, cvg[2]]
         name = 'cinit_' + hashlib.sha1(json.dumps(core, sort_keys=True).encode()).hexdigest()[:10]
         base_kinds = dict(self.kind_of)
         for op in case['ops']:
@@ -246,7 +257,7 @@ class ConsumerTranslator(Translator):
                 if a[0] == 'add':
                     self.kind_of.setdefault(a[1], TXK[TX_OF_TYPE[a[3]]])
         if name not in self.init_defs:
-            self.init_defs[name] = self.cinit_literal(name, snap, 1, snap['inst'])
+            self.init_defs[name] = self.cinit_literal(name, snap, cseq, cvg[2])
         steps, exp = [], []
         for n, st in enumerate(result['trace']):
             reps = delivered[n] if delivered is not None else [r for r in st['reports'] if not r.get('other') and r['kind'] != 'UNPARSABLE']
